@@ -356,7 +356,8 @@ def r8(p, rep):
             if f.cls is ell and f.params:
                 src_names.add(f.params[0])
             ida_x = cfg.expand(ida, cfg.node_for(c)) if cfg.node_for(c) is not None else ida
-            forwards = any(isinstance(x, ast.Attribute) and x.attr == "ellipsis_id" and isinstance(x.value, ast.Name) and x.value.id in src_names for x in ast.walk(ida_x)) or (isinstance(ida, ast.Name) and ida.id in f.params and ida.id == "ellipsis_id")
+            # `<node>.ellipsis_id` of any node (only ellipses have one) / the constructor's own parameter handed on
+            forwards = any(isinstance(x, ast.Attribute) and x.attr == "ellipsis_id" and isinstance(x.value, ast.Name) for x in ast.walk(ida_x)) or (isinstance(ida, ast.Name) and ida.id in f.params and ida.id == "ellipsis_id")
             fresh_here = any(isinstance(x, ast.Call) and norm(x.func).endswith("uuid4") for x in ast.walk(ida))
             if not fresh_here and isinstance(ida, ast.Name):
                 v = common.single_reaching_value(cfg, c, ida.id)
